@@ -218,6 +218,32 @@ func exprsStream(r *Run) {
 				r.Violate("C08", "literal-denotes-itself", renderCaseLine(engineCfg{}, "", 0, src, env), fmt.Sprintf("%s: want %q got %s", src, want, res))
 			}
 		}
+		// the same literals rendered one after the other in ONE process (the sharded loop below spreads them over sixteen):
+		// what a literal denotes does not depend on which sources were parsed before (implementation only)
+		if r.Shard == 0 {
+			lits := []string{"a b", "a  b", "a\nb", "a\tb", "a \t b", " a b", "a b ", "a\r\nb", "ab", "a   b"}
+			for round := 0; round < 2; round++ {
+				for _, lit := range lits {
+					for _, src := range []string{"{{ \"" + lit + "\" }}", "{% assign m = '" + lit + "' %}{{ m }}", "{{ 'x' | append: \"" + lit + "\" }}"} {
+						got := guard(func() string {
+							out, err := liquid.NewEngine().ParseAndRenderString(src, map[string]any{})
+							if err != nil {
+								return "err"
+							}
+							return out
+						})
+						want := lit
+						if strings.Contains(src, "append") {
+							want = "x" + lit
+						}
+						r.Count("string-literal-history")
+						if got != want {
+							r.Violate("C08", "literal-denotes-itself", "exprs-literal-history "+hexField(src), fmt.Sprintf("%q renders %q, want %q (after other literals were parsed in this process)", src, got, want))
+						}
+					}
+				}
+			}
+		}
 		// string literals that differ only in the white space INSIDE them, parsed one after the other in one process
 		for _, lit := range []string{"a b", "a  b", "a\nb", "a\tb", "a \t b", " a b", "a b ", "a\r\nb", "ab"} {
 			if !r.Mine() {
